@@ -50,6 +50,9 @@ def model_check(ctx):
     ctx.mc_expect("MC_ScenarioStore", "DEV_ScenarioStore_2.cfg", "PropRejectAtomic")
     ctx.mc_expect("MC_ScenarioStore", "DEV_ScenarioStore_3.cfg", "PropRejectAtomic")
     ctx.mc_expect("MC_ScenarioStore", "DEV_ScenarioStore_4.cfg", "InvPoolExact")
+    if ctx.thorough:      # unbounded histories: inductive invariant of spec/APA_ScenarioStore.tla checked by Apalache (crv/apalache.py)
+        from crv import apalache
+        apalache.append_run(ctx, "APA_ScenarioStore")
 
 
 def cases(ctx):
